@@ -97,6 +97,87 @@ def _chunk(args):
     return out
 
 
+ALPHA = 'abcdefghijklmnopqrstuvwxyzABCDEFGHIJKLMNOPQRSTUVWXYZ0123456789'
+
+
+def _split_chunk(cases):
+    """the real process_lines of a transformer-type engine with max_line_width configured: every over-long line is cut into
+    overlapping windows, recognised in parts and stitched by merge_transcriptions_and_logits.  The stub network reads the text
+    painted into the crop (one pixel column per character), so the expected parts of a line are the windows of its own text."""
+    core.setup_repo_path()
+    import numpy as np
+    import torch
+    from pero_ocr.ocr_engine import line_ocr_engine as le
+    MAXW = 16
+    out = {'evaluations': 0, 'nontrivial': 0, 'failures': [], 'samples': []}
+
+    class Stub(le.BaseEngineLineOCR):
+        def __init__(self, batch_size):
+            self.line_px_height = 4
+            self.line_vertical_scale = 1
+            self.characters = list(ALPHA) + ['~']
+            self.max_line_width = MAXW
+            self.model_type = 'transformer'
+            self.device = torch.device('cpu')
+            self.batch_size = batch_size
+            self.line_padding_px = 32
+            self.max_input_horizontal_pixels = 480 * batch_size
+            self.net_subsampling = 4
+
+        def run_ocr(self, batch_data):
+            texts, logits = [], []
+            for row in batch_data[:, 0, :, 0]:
+                idx = [int(v) - 1 for v in row if v > 0]
+                texts.append(''.join(ALPHA[i] for i in idx))
+                lg = np.full((len(idx) + 2, len(ALPHA) + 1), -5.0)
+                for r, i in enumerate(idx):
+                    lg[r, i] = 5.0
+                logits.append(lg)
+            return texts, logits
+
+    def paint(text):
+        img = np.zeros((4, len(text), 3), dtype=np.uint8)
+        img[:, :, :] = np.array([ALPHA.index(c) + 1 for c in text], dtype=np.uint8)[None, :, None]
+        return img
+
+    def windows(text):
+        if len(text) <= MAXW:
+            return [text]
+        ov, parts, s0, e0 = MAXW // 4, [], 0, MAXW
+        while e0 < len(text):
+            parts.append(text[s0:e0])
+            s0 += MAXW - ov
+            e0 += MAXW - ov
+        parts.append(text[s0:e0])
+        return parts
+    for lengths, batch_size, offset in cases:
+        out['evaluations'] += 1
+        texts = [''.join(ALPHA[(offset + 17 * k + j) % len(ALPHA)] for j in range(n)) for k, n in enumerate(lengths)]
+        if sum(1 for t in texts if len(t) > MAXW) >= 2:
+            out['nontrivial'] += 1
+        bad = []
+        try:
+            got, logits, _ = Stub(batch_size).process_lines([paint(t) for t in texts], sparse_logits=False)
+            for k, (t, g) in enumerate(zip(texts, got)):
+                parts = windows(t)
+                ov = MAXW // 4
+                if g is None or not g.startswith(parts[0][:len(parts[0]) - (ov + 1) // 2 if len(parts) > 1 else len(parts[0])]):
+                    bad.append('line %d: stitched text %r does not begin with its own first part %r (less half the overlap)' % (k, g, parts[0]))
+                elif not g.endswith(parts[-1][ov // 2:] if len(parts) > 1 else parts[-1]):
+                    bad.append('line %d: stitched text %r does not end with its own last part %r' % (k, g, parts[-1]))
+                elif len(set(t)) == len(t) and g != t:
+                    bad.append('line %d: windows of a text without repeated symbols overlap unambiguously, yet %r != %r' % (k, g, t))
+                elif logits[k].shape[0] != len(g):
+                    bad.append('line %d: %d logit rows for %d characters' % (k, logits[k].shape[0], len(g)))
+        except Exception as e:
+            bad.append('raised %r' % (e,))
+        for b in bad:
+            out['failures'].append({'input': {'line_lengths': list(lengths), 'batch_size': batch_size, 'offset': offset}, 'observed': b})
+        if len(out['samples']) < 2 and len(lengths) == 2:
+            out['samples'].append({'line_lengths': list(lengths), 'batch_size': batch_size})
+    return out
+
+
 def run(ctx):
     from pyvc import run as vrun
     from contracts import lineocr
@@ -129,6 +210,24 @@ def run(ctx):
                         res['evaluations'], res['nontrivial'], True, res['samples'], fails,
                         rule='every list of parts in the domain; non-trivial = at least two non-empty parts',
                         clause='same contract as the proof, on the real functions with real numpy logits')
+    # the caller: window splitting + stitching inside process_lines (several over-long lines in one batch, several batches)
+    widths = (5, 16, 17, 28, 29, 41, 60)
+    cases = [((a,), bs, 0) for a in widths for bs in (1, 2)] + \
+            [((a, b), bs, off) for a in widths for b in widths for bs in (1, 2, 8) for off in ((0, 5) if thorough else (0,))] + \
+            [((a, b, c), bs, 3) for a in widths[2:] for b in widths[2:] for c in widths[::3] for bs in ((2, 8) if thorough else (8,))]
+    res = bounded.pmap(_split_chunk, bounded.shard(bounded.order(cases, ctx.seed), 16))
+    fails = []
+    if res['failures']:
+        f = sorted(res['failures'], key=lambda f: (sum(f['input']['line_lengths']), str(f['input'])))[0]
+        fails.append(Failure(sig('rt', 'process_lines', 'split-lines-stitched-from-own-parts'),
+                             'a line split for recognition is not stitched from its own parts: %s on %s' % (f['observed'], f['input']),
+                             function='BaseEngineLineOCR.process_lines', input=f['input'], observed=f['observed'],
+                             expected='begins with its first window less half the overlap, ends with its last window, equals the text when the windows overlap unambiguously; one logit row per character',
+                             clause='split-lines-stitched-from-own-parts'))
+    ctx.add_bounded('split-and-stitch', 'process_lines of a transformer-type stub engine (max_line_width 16, overlap 4) on 1..3 painted lines of '
+                    '%r characters, batch sizes 1/2/8' % (widths,), res['evaluations'], res['nontrivial'], False, res['samples'], fails,
+                    rule='line-length tuples x batch sizes; non-trivial = at least two over-long lines in the call',
+                    clause='a split line is stitched from its own parts (begins with the first, ends with the last, length equation)')
     bounded.close()
     if thorough:
         selftest.run(ctx, MUTANTS)
